@@ -324,6 +324,44 @@ def check_raise_catch(ctx):
                 'an undefined rule reference does not deny')
 
 
+def _hook_answers_for_empty_store(ctx):
+    """(where, conditions) of a path of Rules.__missing__ that returns the
+    default rule object and whose conditions never mention the store itself
+    (a bare `self`: truth, length, membership, iteration); None if there is
+    no such path."""
+    prog = ctx.prog
+    f = prog.func(RULES + '.__missing__')
+    from ..dte import inline_helpers
+    t = Table(prog, f, inline=inline_helpers(prog, modules={POLICY}),
+              max_depth=4)
+    subj, _ = dr_domain()
+    me = f.params[0] if f.params else 'self'
+
+    def bare_self(e):
+        if e is None or not isinstance(e, ast.AST):
+            return False
+        pm = parent_map(e)
+        for n in ast.walk(e):
+            if isinstance(n, ast.Name) and n.id == me:
+                par = pm.get(n)
+                if not (isinstance(par, ast.Attribute) and par.value is n):
+                    return True
+        return False
+
+    for p in t.paths:
+        if p.outcome.kind != 'return' or p.outcome.expr is None:
+            continue
+        if U(t.expand(p.outcome.expr)) != subj:
+            continue
+        if any(bare_self(t.expand(c.expr)) if isinstance(
+                c.expr, ast.AST) else True for c in p.conds):
+            continue
+        return (ctx.where(f.module, p.outcome.node
+                          if getattr(p.outcome, 'node', None) is not None
+                          else f.node), p.cond_text())
+    return None
+
+
 def check_fail_closed(ctx):
     """enforce: empty store / lookup failure give constant False before the
     do_raise gate."""
@@ -356,6 +394,20 @@ def check_fail_closed(ctx):
             if not denies:
                 bad_exc = p
     ctx.count(len(t.paths))
+    if n_empty == 0 and n_exc:
+        # enforce never asks whether the store is empty before looking the
+        # name up: then the store's missing-key hook decides, and a path of
+        # the hook that hands back the default *object* under conditions that
+        # do not mention the store's content answers for an empty store too
+        hook = _hook_answers_for_empty_store(ctx)
+        if hook is not None:
+            ctx.ob('C03.FAIL-CLOSED', False, W, enf.qual,
+                   'empty rule store (0 paths)',
+                   'enforce looks a name up without asking whether the rule '
+                   'store is empty, and the missing-key hook returns the '
+                   'default check object (%s, on: %s) whatever the store '
+                   'holds: with an empty rule set an undefined name is '
+                   'decided by the default instead of denied' % hook)
     ctx.floor('C03.FAIL-CLOSED', n_empty, 1, 'empty-store paths')
     ctx.floor('C03.FAIL-CLOSED', n_exc, 1, 'lookup-failure paths')
     ctx.ob('C03.FAIL-CLOSED', bad_empty is None, W, enf.qual,
